@@ -8,15 +8,16 @@ the observation lists are compared inside Coq with typed equality.
 Oracle: plain Python, from the property text: the i-th output is the Python operator applied to the i-th
 values of the operand streams (operand streams of non-literal leaves are obtained by running a fresh
 instance of the leaf on its own)."""
-import operator, math, contextlib
+import operator, math, contextlib, re
+from concurrent.futures import ThreadPoolExecutor
 import pat_common as _pc
 from pat_common import *
 
 PROP = "C08"
 META = {
  "engine": "P-pattern-algebra",
- "text": "Coq theorems (Props/C08.v, closed under the global context) prove, for an ARBITRARY operator semantics (a Section variable) and arbitrary operand objects of the pattern model: the i-th output of every PBinOp class is the operator applied to the i-th operand values, a rest on either side gives a rest, the output stops at the first index at which either operand stops (left operand first), & yields the conjunction of the truth values, -p is 0 - p_i and abs(p) is |p_i| with rests kept; what the Python operators build (dunder table incl. reflected forms) denotes the operator with the operands in the written order; and the law lifts to operator expression trees of any depth by induction. The model (Pat/Step.v, a clause-by-clause transcription of core.py) is tied to the repository on every run: operator expressions built through the Python operators for all 15 operators and &, -x, abs(x), pattern/scalar on either side, ints/floats/bools/rests, equal and unequal lengths, raising operands, nestings to depth 3 (5 % deeper) are run on both sides and compared inside Coq; an independent oracle applies Python's own operators to the operand streams in the written nesting order, compares floats bit for bit (incl. the sign of a zero) and supplies the failing input. Rounding-sensitive strata (two-operator chains and nested trees with scalars at every level over float themes: non-dyadic decimals, cancellation with 1e16, values near 2**53, subnormals, signed zeros) make re-association, distribution, constant folding and single rounding visible; these cases are also compared with the model under the operator semantics Pat/Ieee.v (exact result rounded to binary64, ties to even), for which Props/C08.v proves the nesting law instance, non-associativity / non-distributivity witnesses, the reflected-form side condition and conservativity over Pat/Val.v.",
- "note": "Trusted: Coq kernel + VM; the harness; Val.binop as a description of CPython's arithmetic on the exact (dyadic) value domain - the C08 theorems do not depend on it (operator semantics is a Section variable), only the correspondence does; and Ieee.binop_ieee (round-to-nearest-even + - * / on all finite floats) as a description of CPython's float arithmetic, validated by the correspondence only; results outside both domains (// % ** on non-dyadic floats, inf/nan, complex, huge ints) are judged by the oracle only and discarded from the model comparison; the sign of a zero is judged by the oracle only, and not under a unary minus (property text undecided). After the first exception the operand streams are no longer aligned (the left operand has advanced, the right has not): the law is judged up to and including the first StopIteration/exception.",
+ "text": "Coq theorems (Props/C08.v, closed under the global context) prove, for an ARBITRARY operator semantics (a Section variable) and arbitrary operand objects of the pattern model: the i-th output of every PBinOp class is the operator applied to the i-th operand values, a rest on either side gives a rest, the output stops at the first index at which either operand stops (left operand first), & yields the conjunction of the truth values, -p is 0 - p_i and abs(p) is |p_i| with rests kept; what the Python operators build (dunder table incl. reflected forms) denotes the operator with the operands in the written order; and the law lifts to operator expression trees of any depth by induction. The model (Pat/Step.v, a clause-by-clause transcription of core.py) is tied to the repository on every run: operator expressions built through the Python operators for all 15 operators and &, -x, abs(x), pattern/scalar on either side, ints/floats/bools/rests, equal and unequal lengths, raising operands, nestings to depth 3 (5 % deeper) are run on both sides and compared inside Coq; an independent oracle applies Python's own operators to the operand streams in the written nesting order, compares floats bit for bit (incl. the sign of a zero) and supplies the failing input. Rounding-sensitive strata (two-operator chains and nested trees with scalars at every level over float themes: non-dyadic decimals, cancellation with 1e16, values near 2**53, subnormals, signed zeros) make re-association, distribution, constant folding and single rounding visible; these cases are also compared with the model under the operator semantics Pat/Ieee.v (exact result rounded to binary64, ties to even), for which Props/C08.v proves the nesting law instance, non-associativity / non-distributivity witnesses, the reflected-form side condition and conservativity over Pat/Val.v. Special IEEE values (NaN, +-inf, overflow) as operand values - stream elements, scalars on either side, arising inside expressions - are explored by element-wise tables of every operator class / & / abs / unary minus over all ordered pairs of a pool (forms ctor, pp, ps, sp), singles, two-operator chains and nested trees; they are modelled in Pat/IeeeSpecial.v (xf = XNaN | XInf | XFin: NaN unordered, IEEE + - * / with overflow, // % with a non-finite operand, abs, truthiness), for which Props/C08.v proves that x >= y is not (x < y) exactly on ordered operands, trichotomy exactly on non-NaN, that orderings derived from a three-way comparison are right exactly on ordered operands, NaN propagation and the inf arithmetic, the reflected-form side condition for ALL values, conservativity over Pat/Ieee.v, and - through an encoding into val - the pattern-level law instantiated at this semantics; the tables are compared element by element and the expressions through the shared pattern model inside Coq.",
+ "note": "Trusted: Coq kernel + VM; the harness; Val.binop as a description of CPython's arithmetic on the exact (dyadic) value domain - the C08 theorems do not depend on it (operator semantics is a Section variable), only the correspondence does; and Ieee.binop_ieee (round-to-nearest-even + - * / on all finite floats) as a description of CPython's float arithmetic, validated by the correspondence only; IeeeSpecial.xbinop as a description of CPython's float arithmetic on NaN / inf, validated by the correspondence only; results outside these domains (// % ** on non-dyadic floats, ** with a non-finite operand, complex, huge ints) are judged by the oracle only and discarded from the model comparison; the sign of a zero is judged by the oracle only, and not under a unary minus (property text undecided). After the first exception the operand streams are no longer aligned (the left operand has advanced, the right has not): the law is judged up to and including the first StopIteration/exception.",
 }
 
 PYOP = {"+": operator.add, "-": operator.sub, "*": operator.mul, "/": operator.truediv, "//": operator.floordiv,
@@ -144,6 +145,8 @@ def obs_value(y):
     """the Python value of an observation of impl/c08_impl.py (the sign of a zero kept)"""
     if isinstance(y, dict) and y.get("z"):
         return -0.0
+    if isinstance(y, dict) and isinstance(y.get("o"), str) and y["o"] in ("float:nan", "float:inf", "float:-inf"):
+        return float(y["o"][6:])                       # value_to_json writes a non-finite float as {"o": "float:nan"}
     return from_json(y)
 
 
@@ -414,7 +417,7 @@ class FpGen:
 
     def value(self, theme):
         r = self.rng
-        v = r.choice(FP_THEMES[theme])
+        v = r.choice(FP_THEMES[theme] if theme in FP_THEMES else SPECIAL_THEMES[theme])
         if type(v) is not bool and r.random() < 0.25:   # a relative of a pool member
             k = r.choice([-1, 2, 0.5, 10, 3, 0.1])
             if theme == "ints":
@@ -547,6 +550,304 @@ def fp_tree_cases(rng, fg, n):
     return out
 
 
+# ---- the special IEEE values -----------------------------------------------------------------------------
+# NaN, +inf, -inf as operand values: as stream elements, as scalars on either side, and arising inside an
+# expression (inf - inf, 0.0 * inf, 1e308 * 10, 1e308 + 1e308).  NaN is unordered (every comparison False except
+# !=), so an implementation that derives >= from a three-way comparison, or from `not <`, or that sorts / dedups
+# / looks values up by equality, differs from the Python operator exactly there; infinities propagate through
+# arithmetic and only the special combinations give NaN.  None of this is reachable from finite operands except
+# through overflow.  Generated after all the other strata (the older cases are unchanged for a given seed).
+NAN, INF = float("nan"), float("inf")
+SPECIAL_THEMES = {
+    "special": [NAN, INF, -INF, 0.0, -0.0, 1.0, -1.0, 2.5, 1e308, -1e308, 0, 1, -3, INF, NAN, 7, 0.5, True],
+    "overflow": [1e308, -1e308, 1.7976931348623157e308, 1e200, 1e-200, 10.0, 0.0, 2, -2, 0.5, 1e154, 1.5e154,
+                 INF, 10 ** 400, -1.0, 3, 5e-324],
+}
+SP_POOL = [NAN, INF, -INF, 0.0, -0.0, 1.0, -1.0, 2.5, 1e308, -1e308, 5e-324, 0, 1, -3, 10 ** 400, True]
+SP_POOL_MORE = [-0.5, 1.7976931348623157e308, 2 ** 53 + 1, False]           # thorough tier
+SP_SMALL = [NAN, INF, -INF, 0, 1, 2, -1, 0.5, 2.0, 0.0, True]      # exponents / shift counts
+SP_CHAIN_PAIRS = [(a, b) for a in "+-*/" for b in CMPS] + [(a, b) for a in "+-*/" for b in "+-*/"] + \
+                 [("+", "&"), ("*", "&"), ("-", "//"), ("*", "%"), ("/", "//"), ("+", "**"), ("<", "+"), (">=", "*")]
+
+
+def is_special(v):
+    return type(v) is float and not math.isfinite(v)
+
+
+def sp_value(rng, kind="special"):
+    v = rng.choice(SPECIAL_THEMES[kind])
+    return None if rng.random() < 0.08 else v
+
+
+def sp_grid_cases(rng, SP_POOL=SP_POOL):
+    """element-wise tables: every operator class, & , abs and unary minus on every ordered pair of a pool of special
+    and ordinary values, the constant operand as a stream or as a scalar on either side.  A pair on which the Python
+    operator raises gets a one-element case of its own (nothing is claimed after an exception)."""
+    out = []
+    k = 0
+    for sym in SYMS:
+        rhs_pool = SP_SMALL if sym in SMALL_RHS else SP_POOL
+        cls = [c for c, s2 in CLS2SYM.items() if s2 == sym][0]
+        for side in ("left", "right"):                   # where the constant operand x stands
+            for x in (SP_POOL if side == "left" else rhs_pool):
+                varying = rhs_pool if side == "left" else SP_POOL
+                ok, bad = [], []
+                for o in varying:
+                    a, b = (x, o) if side == "left" else (o, x)
+                    (bad if apply_op(sym, a, b)[0] == "r" else ok).append(o)
+                for row in ([ok] if ok else []) + [[o] for o in bad]:
+                    n = len(row)
+                    form = ("ctor", "pp", "sp" if side == "left" else "ps")[k % 3]
+                    k += 1
+                    if sym == "&" and form == "sp":
+                        form = "pp"
+                    const = x if form in ("sp", "ps") else E("PSequence", [x] * n, 1)
+                    strm = E("PSequence", list(row), 1)
+                    l, r = (const, strm) if side == "left" else (strm, const)
+                    e = E(cls, l, r) if form == "ctor" else Infix(sym, l, r)
+                    xs, ys = ([x] * n, list(row)) if side == "left" else (list(row), [x] * n)
+                    out.append(Case(e, [("next", 0)] * (n + 1), "sp-grid", {"sym": sym, "form": form, "xs": xs, "ys": ys}))
+    for op in ("neg", "abs"):
+        for form in ("infix", "ctor"):
+            if op == "neg" and form == "ctor":
+                continue
+            xs = list(SP_POOL) + [None]
+            arg = E("PSequence", xs, 1)
+            e = Unary(op, arg) if form == "infix" else E("PAbs", arg)
+            out.append(Case(e, [("next", 0)] * (len(xs) + 1), "sp-grid", {"sym": op, "form": form, "xs": xs, "ys": xs}))
+    return out
+
+
+def sp_single_cases(rng, per_cell):
+    """every operator x {pp, ps, sp} x length relations, over streams of special and ordinary values with rests"""
+    out = []
+    for sym in SYMS:
+        for form in ("pp", "ps", "sp"):
+            if sym == "&" and form == "sp":
+                continue
+            for rel in ("equal", "left-shorter", "right-shorter"):
+                if form != "pp" and rel != "equal":
+                    continue
+                for _ in range(per_cell):
+                    n = rng.randint(3, 7)
+                    m = n if rel == "equal" else max(1, n - rng.randint(1, 2))
+                    if rel == "left-shorter":
+                        n, m = m, n
+                    kind = rng.choice(["special", "special", "overflow"])
+                    small = sym in SMALL_RHS
+                    lv = [sp_value(rng, kind) for _ in range(n)]
+                    rv = [(None if rng.random() < 0.08 else rng.choice(SP_SMALL)) if small else sp_value(rng, kind) for _ in range(m)]
+                    if small:
+                        lv = [v if not (type(v) is int and abs(v) > 2 ** 60) else 3 for v in lv]
+                    l, r = E("PSequence", lv, 1), E("PSequence", rv, 1)
+                    if form == "ps":
+                        r = rng.choice([v for v in rv if v is not None] or [NAN])
+                    elif form == "sp":
+                        l = rng.choice([v for v in lv if v is not None] or [NAN])
+                    out.append(Case(Infix(sym, l, r), [("next", 0)] * (max(n, m) + 2), "sp-single",
+                                    {"op": sym, "form": form, "theme": kind}))
+    return out
+
+
+def sp_chain_cases(rng, fg, reps):
+    """two operators one after the other over a stream and two scalars drawn from a special theme, four written
+    forms: NaN / inf produced at the inner level (inf - inf, 0.0 * inf, 1e308 * 10) meets every comparison, &,
+    and further arithmetic at the outer level"""
+    out = []
+    for rep in range(reps):
+        for o1, o2 in SP_CHAIN_PAIRS:
+            for form in ("ll", "lr", "rl", "rr"):
+                theme = ("special", "overflow")[(rep + len(out)) % 2]
+                if o2 in SMALL_RHS and form[1] == "r" or o2 == "&" and form[1] == "r":
+                    continue
+                p = fg.leaf(theme)
+                c1 = fg.value(theme)
+                c2 = rng.choice(SP_SMALL) if o2 in SMALL_RHS else fg.value(theme)
+                inner = Infix(o1, p, c1) if form[0] == "l" else Infix(o1, c1, p)
+                e = Infix(o2, inner, c2) if form[1] == "l" else Infix(o2, c2, inner)
+                out.append(Case(e, [("next", 0)] * (leaf_len(p) + 2 if leaf_len(p) < 20 else 8), "sp-chain",
+                                {"theme": theme, "family": "%s then %s" % (o1, o2), "form": form}))
+    return out
+
+
+def sp_tree_cases(rng, fg, n):
+    out = []
+    fams = ["additive", "multiplicative", "distributive", "compare", "compare", "compare", "free", "intdiv"]
+    for i in range(n):
+        family = fams[i % len(fams)]
+        theme = ("special", "overflow", "special")[i % 3]
+        depth = rng.choice([2, 2, 3, 3, 3, 4])
+        e = fg.tree(depth, theme, family)
+        out.append(Case(e, [("next", 0)] * 8, "sp-nested", {"theme": theme, "family": family}))
+    return out
+
+
+def special_seen(c):
+    """measured: a NaN / infinity is among the outputs of the case"""
+    return any(isinstance(o, dict) and isinstance(o.get("y"), dict) and str(o["y"].get("o", "")).startswith("float:")
+               for o in (c.obs or [])[1:])
+
+
+def special_arises(c):
+    """measured: a NaN / infinity is among the outputs although no operand of the expression is one"""
+    lits = [n for _, n in nodes(c.expr) if is_special(n)]
+    return not lits and special_seen(c)
+
+
+def abs_meets_special(c, streams):
+    """abs() of a NaN / infinity somewhere in the case: the shared pattern model computes abs with Pat/Val.v py_abs,
+    which has no special values (the element-wise table compares abs with IeeeSpecial.xabs instead)"""
+    for _, n in nodes(c.expr):
+        arg = n.x if isinstance(n, Unary) and n.op == "abs" else \
+            n.args[0] if isinstance(n, E) and n.cls == "PAbs" and len(n.args) == 1 else None
+        if arg is None:
+            continue
+        for i in range(max(1, len(c.obs or []) - 1)):
+            try:
+                o = elem(arg, i, streams)
+            except CannotJudge:
+                return True
+            if o == "stop":
+                break
+            if o[0] == "r" or is_special(o[1]):           # after an exception the operand streams are no longer aligned:
+                return True                               # what abs() meets later cannot be predicted here
+    return False
+
+
+def well_formed(x):
+    """every operator node has a pattern operand (a shrinking step may replace the only pattern operand by a scalar:
+    `abs(1)` is an int, not a pattern)"""
+    for _, n in nodes(x):
+        if isinstance(n, Infix) and not (is_pat(n.lhs) or is_pat(n.rhs)):
+            return False
+        if isinstance(n, Unary) and not is_pat(n.x):
+            return False
+    return is_pat(x)
+
+
+SPECIAL_HEADER = HEADER.replace("Pat.Script ", "Pat.Script Pat.Ieee Pat.IeeeSpecial ").replace(
+    "check_trace Val.binop", "check_trace IeeeSpecial.binop_sp").replace("trace Val.binop", "trace IeeeSpecial.binop_sp")
+assert "Pat.IeeeSpecial" in SPECIAL_HEADER and SPECIAL_HEADER.count("IeeeSpecial.binop_sp") == 2
+SP_TUP = {"nan": '(VTup [VStr "nan"%string])', "inf": '(VTup [VStr "inf"%string])', "-inf": '(VTup [VStr "-inf"%string])'}
+
+
+def zbig(n):
+    """Z literal; a long one is written in chunks of 18 digits (Coq reads a decimal numeral in quadratic time)"""
+    if abs(n) < 10 ** 36:
+        return zlit(n)
+    digits = str(abs(n))
+    t = None
+    for i in range(0, len(digits), 18):
+        chunk = digits[i:i + 18]
+        t = str(int(chunk)) if t is None else "(%s * %d + %d)" % (t, 10 ** len(chunk), int(chunk))
+    return "(- %s)" % t if n < 0 else t
+
+
+def val_coq_special(v):
+    """as val_coq_ieee, plus the encoding of the three special floats of Pat/IeeeSpecial.v [enc]"""
+    if isinstance(v, Opaque) and v.what in ("float:nan", "float:inf", "float:-inf"):
+        v = float(v.what[6:])
+    if is_special(v):
+        return SP_TUP[repr(v)]
+    if type(v) is int and abs(v) >= 10 ** 36:
+        return "(VInt %s)" % zbig(v)
+    return val_coq_ieee(v)
+
+
+@contextlib.contextmanager
+def special_model():
+    """inside: the shared runner compares with the operator semantics Pat/IeeeSpecial.v binop_sp"""
+    saved = (_pc.HEADER, _pc.val_coq)
+    _pc.HEADER, _pc.val_coq = SPECIAL_HEADER, val_coq_special
+    try:
+        yield
+    finally:
+        _pc.HEADER, _pc.val_coq = saved
+
+
+GRID_HEADER = """From Isobar Require Import Base.Prelude Pat.Val Pat.Ieee Pat.IeeeSpecial.
+From Coq Require Import String QArith.
+Open Scope Z_scope.
+"""
+XSYM = {sym: "(XOp %s)" % coq for (sym, coq) in BINOPS.values()}
+XSYM.update({"&": "XAnd", "abs": "XAbs", "neg": "XNeg"})
+
+
+def xv_coq(v):
+    if v is None:
+        return "XN"
+    if isinstance(v, bool):
+        return "(XB %s)" % blit(v)
+    if isinstance(v, int):
+        return "(XI %s)" % zbig(v)
+    if type(v) is float:
+        if v != v:
+            return "(XF XNaN)"
+        if not math.isfinite(v):
+            return "(XF (XInf %s))" % blit(v < 0)
+        n, d = v.as_integer_ratio()
+        if n == 0:
+            return "(xmk 0 0)"
+        if d == 1:
+            e = (n & -n).bit_length() - 1
+            return "(xmk %s %d)" % (zlit(n >> e), e)
+        return "(xmk %s (-%d))" % (zlit(n), d.bit_length() - 1)
+    raise Unrepresentable(repr(v))
+
+
+def xobs_coq(o):
+    """an observation as an outcome xv; a value outside xv (complex, str ...) is written as Inexact: the model must
+    decline it too, a definite model answer is then a disagreement"""
+    if o == "stop":
+        return "Stop"
+    if "r" in o:
+        return "(Raise %s)" % (o["r"] if o["r"] in EXN else "OtherError")
+    try:
+        return "(Yield %s)" % xv_coq(obs_value(o["y"]))
+    except Unrepresentable:
+        return "Inexact"
+
+
+def run_grid_model(run, grid):
+    """the element-wise results of the implementation's operator classes against IeeeSpecial.xelem / xelem_and /
+    xelem_abs, inside Coq: per row the list of codes 0 agree / 1 disagree / 2 the model declines"""
+    rows = [c for c in grid if not c.status and c.obs and canon_obs(c.obs[0]) == "value null"]
+    codes_of = {}
+    chunk = 250
+    parts = [rows[i:i + chunk] for i in range(0, len(rows), chunk)]
+
+    def one(part):
+        terms, names = [], {}
+
+        def nm(lit):                                     # every distinct literal is elaborated once
+            if lit not in names:
+                names[lit] = "v%d" % len(names)
+            return names[lit]
+
+        def ob(o):
+            t = xobs_coq(o)
+            return "(Yield %s)" % nm(t[7:-1]) if t.startswith("(Yield ") else t
+        for c in part:
+            m = c.meta
+            exp = [ob(o) for o in c.obs[1:1 + len(m["xs"])]]
+            terms.append("xrow %s %s %s %s" % (XSYM[m["sym"]], lst([nm(xv_coq(v)) for v in m["xs"][:len(exp)]]),
+                                               lst([nm(xv_coq(v)) for v in m["ys"][:len(exp)]]), lst(exp)))
+        defs = "".join("Definition %s : xv := %s.\n" % (n, lit) for lit, n in names.items())
+        out = run.coqc_text("grid", GRID_HEADER + defs + "\nDefinition rows : list (list nat) := [\n" + ";\n".join(terms) +
+                            "\n].\nEval vm_compute in rows.\n")
+        txt = " ".join(out.split()).replace("%nat", "")
+        body = txt[txt.index("= [") + 3:txt.rindex("] : list (list nat)")]
+        got = [[int(x) for x in r.split(";") if x.strip()] for r in re.findall(r"\[([^\[\]]*)\]", body)]
+        if len(got) != len(part):
+            raise CheckError("grid: %d rows back for %d" % (len(got), len(part)))
+        return got
+    with ThreadPoolExecutor(max_workers=8) as ex:
+        for part, got in zip(parts, ex.map(one, parts)):
+            for c, codes in zip(part, got):
+                codes_of[id(c)] = codes
+    return rows, codes_of
+
+
 def run_impl8(run, cases, shards=12):
     """as pat_common.run_impl, on impl/c08_impl.py: the expression travels as its Python source text as well (the
     JSON form, floats as integer ratios, would lose the sign of a literal -0.0), observations mark negative zeros"""
@@ -635,19 +936,24 @@ def check(run):
     fg = FpGen(rng)
     fp_cases = chain_cases(rng, fg, 6 if thorough else 1) + fp_tree_cases(rng, fg, 20000 if thorough else 800)
 
+    # the special IEEE values (generated after everything else)
+    sp_grid = sp_grid_cases(rng, SP_POOL + SP_POOL_MORE if thorough else SP_POOL)
+    sp_cases = sp_single_cases(rng, 3 if thorough else 1) + sp_chain_cases(rng, fg, 6 if thorough else 1) + \
+        sp_tree_cases(rng, fg, 6000 if thorough else 300)
+
     # operand streams of the non-literal leaves: a fresh instance of the leaf, run on its own
     leaves = {}
     for x in tg.opaque:
         leaves.setdefault(to_source(x), x)
     leaf_cases = [Case(x, [("next", 0)] * NEXTS, "leaf") for x in leaves.values()]
-    run_impl8(run, cases + script_cases + leaf_cases + fp_cases)
+    run_impl8(run, cases + script_cases + leaf_cases + fp_cases + sp_grid + sp_cases)
     streams = {to_source(c.expr): c.obs[1:] for c in leaf_cases
                if not c.status and c.obs and canon_obs(c.obs[0]) == "value null"}
     lap("generate+implementation")
 
     # ---- oracle
     explained = set()
-    for c in cases + fp_cases:
+    for c in cases + fp_cases + sp_grid + sp_cases:
         run.count()
         sym, form = root_sig(c.expr)
         run.dist("op.%s" % sym); run.dist("form.%s" % form); run.dist("stream.%s" % c.tag)
@@ -658,6 +964,15 @@ def check(run):
             run.dist("fp.theme.%s" % c.meta["theme"]); run.dist("fp.family.%s" % c.meta["family"])
             if not c.status and rounding_visible(c):
                 run.dist("fp.rounding-visible")
+        if c.tag.startswith("sp-"):
+            if "theme" in c.meta:
+                run.dist("special.theme.%s" % c.meta["theme"])
+            if not c.status and special_seen(c):
+                run.dist("special.nan-or-inf-among-the-outputs")
+            if not c.status and special_arises(c):
+                run.dist("special.arises-from-finite-operands")
+            if sym in CMPS and not c.status and any(is_special(n) and n != n for _, n in nodes(c.expr)):
+                run.dist("special.nan-meets-comparison.%s" % sym)
         if c.status:
             run.discard("impl-" + c.status)
             continue
@@ -700,21 +1015,65 @@ def check(run):
                 run.cov["traces_validated_with_rounding_model"] = run.cov.get("traces_validated_with_rounding_model", 0) + 1
         disagreements(run, fpc, explained, streams)
     lap("model-ieee")
+
+    # ---- model, special values: (1) the element-wise tables against IeeeSpecial.xelem, (2) the expressions through
+    # the shared pattern model with the operator semantics IeeeSpecial.binop_sp
+    rows, codes_of = run_grid_model(run, sp_grid)
+    n_el = n_ok = n_decl = 0
+    for c in rows:
+        codes = codes_of[id(c)]
+        n_el += len(codes); n_ok += codes.count(0); n_decl += codes.count(2)
+        if 1 in codes and id(c) not in explained:
+            j = codes.index(1)
+            m = c.meta
+            run.violation({"kind": "correspondence", "site": "element-wise table, operator %s (%s)" % (m["sym"], m["form"])}, {
+                "broken": "correspondence Pat/IeeeSpecial.v (xelem / xelem_and / xelem_abs) vs isobar/pattern/core.py on special "
+                          "operand values: the C08_special_* theorems of Props/C08.v no longer speak about this code",
+                "case": {"expr": to_source(c.expr), "expr_json": to_json(c.expr), "ops": [list(o) for o in c.ops]},
+                "element": j, "operands": [repr(m["xs"][j]), repr(m["ys"][j])], "observed": c.obs_pretty(),
+                "python": replay_snippet(c.expr, c.ops)}, found_input=True)
+    run.cov["special_table_elements"] = n_el
+    run.cov["special_table_elements_agreeing_with_model"] = n_ok
+    run.cov["special_table_elements_model_declines"] = n_decl
+    run.cov["traces_validated_against_impl"] += sum(1 for c in rows if 1 not in codes_of[id(c)] and 0 in codes_of[id(c)])
+    lap("model-special-table")
+    spc = [c for c in sp_cases if model_case_ok(c)]
+    with_abs = [c for c in spc if not c.status and abs_meets_special(c, streams)]
+    for c in with_abs:
+        run.discard("special-abs-of-nan-or-inf (shared model has no special abs; table only)")
+    skip = {id(c) for c in with_abs}
+    spc = [c for c in spc if id(c) not in skip]
+    with special_model():
+        run_model(run, spc, chunk=100)
+        for c in spc:
+            if c.verdict == "discard":
+                run.discard("special-" + (c.status or "?").split(":")[0])
+            elif c.verdict == "agree":
+                run.cov["traces_validated_against_impl"] += 1
+                run.cov["traces_validated_with_special_model"] = run.cov.get("traces_validated_with_special_model", 0) + 1
+        disagreements(run, spc, explained, streams)
+    lap("model-special")
     run.cov["rule"] = ("one case = one operator expression (Python source text) and its next() outputs up to the end; "
                        "non-trivial = the expression produced at least one value; distinct by expression text")
     run.cov["strata"] = ("16 operator symbols x {pp, ps, sp} x {int, float, mixed, rests, bool} x {equal, left-shorter, right-shorter, empty}; "
                          "raising operands; unary; nested depth 2-5; non-literal operand patterns; helper scripts; "
                          "rounding-sensitive: two-operator chains (%d operator pairs x 4 written forms x %d value themes) and nested "
-                         "trees depth 2-5 per operator family, scalars at every level, floats compared bit-for-bit"
-                         % (len(CHAIN_PAIRS), len(FP_THEMES)))
+                         "trees depth 2-5 per operator family, scalars at every level, floats compared bit-for-bit; "
+                         "special IEEE values (NaN, +-inf, overflow): element-wise tables of every operator class / & / abs / "
+                         "neg over all ordered pairs of a %d-value pool in the forms ctor, pp, ps, sp; singles, two-operator "
+                         "chains (%d pairs x 4 forms) and nested trees over the themes special / overflow"
+                         % (len(CHAIN_PAIRS), len(FP_THEMES), len(SP_POOL), len(SP_CHAIN_PAIRS)))
 
 
 def disagreements(run, allc, explained, streams):
     """model and implementation disagree on a case the oracle accepted: shrink, judge the shrunk case, else report"""
     bad = [c for c in allc if c.verdict == "disagree" and id(c) not in explained]
+    if os.environ.get("C08_DEBUG"):
+        for c in bad:
+            sys.stderr.write("DISAGREE %s %s\n  obs %s\n  model %s\n" % (c.tag, to_source(c.expr), c.obs_pretty(), model_trace(run, c)))
     seen = set()
     for c in bad[:3]:
-        small = shrink(run, c, rounds=4)
+        small = shrink(run, c, still_bad=lambda k: k.verdict == "disagree" and well_formed(k.expr), rounds=4)
         sig = {"kind": "correspondence", "site": "operator %s (%s)" % root_sig(small.expr)}
         if json.dumps(sig) in seen:
             continue
@@ -732,7 +1091,8 @@ def disagreements(run, allc, explained, streams):
         run.violation(sig, {
             "broken": "correspondence Pat/Step.v (step of PBinOp/PAnd/PAbs, Pat/Dunder.v; operator semantics %s) vs "
                       "isobar/pattern/core.py: the theorems of Props/C08.v no longer speak about this code"
-                      % ("Pat/Ieee.v binop_ieee" if _pc.HEADER is IEEE_HEADER else "Pat/Val.v binop"),
+                      % ("Pat/Ieee.v binop_ieee" if _pc.HEADER is IEEE_HEADER else
+                         "Pat/IeeeSpecial.v binop_sp" if _pc.HEADER is SPECIAL_HEADER else "Pat/Val.v binop"),
             "case": {"expr": to_source(small.expr), "expr_json": to_json(small.expr), "ops": [list(o) for o in small.ops]},
             "observed": small.obs_pretty(), "model": model_trace(run, small),
             "python": replay_snippet(small.expr, small.ops)}, found_input=False)
